@@ -162,15 +162,16 @@ func relation(got, want []string) string {
 type fld struct {
 	name   string
 	a, b   string // two different valid values
+	z      string // the field's zero value, valid when a stage states it explicitly ("" if there is none)
 	modeOK string
 }
 
 var fields = map[string][]fld{
-	"constant": {{name: "rate", a: "100/100ms", b: "40/100ms"}, {name: "distribution", a: "none", b: "regular"}, {name: "jitter", a: "20", b: "50"}},
-	"ramp":     {{name: "start-rate", a: "100/100ms", b: "10/100ms"}, {name: "end-rate", a: "200/100ms", b: "500/100ms"}, {name: "distribution", a: "none", b: "regular"}, {name: "jitter", a: "20", b: "50"}},
-	"staged":   {{name: "stages", a: "0s:100,1s:200", b: "0s:10,1s:20"}, {name: "iteration-frequency", a: "100ms", b: "200ms"}, {name: "distribution", a: "none", b: "regular"}, {name: "jitter", a: "20", b: "50"}},
+	"constant": {{name: "rate", a: "100/100ms", b: "40/100ms"}, {name: "distribution", a: "none", b: "regular"}, {name: "jitter", a: "20", b: "50", z: "0"}},
+	"ramp":     {{name: "start-rate", a: "100/100ms", b: "10/100ms"}, {name: "end-rate", a: "200/100ms", b: "500/100ms"}, {name: "distribution", a: "none", b: "regular"}, {name: "jitter", a: "20", b: "50", z: "0"}},
+	"staged":   {{name: "stages", a: "0s:100,1s:200", b: "0s:10,1s:20"}, {name: "iteration-frequency", a: "100ms", b: "200ms"}, {name: "distribution", a: "none", b: "regular"}, {name: "jitter", a: "20", b: "50", z: "0"}},
 	"gaussian": {{name: "volume", a: "100000", b: "5000"}, {name: "repeat", a: "1m", b: "2m"}, {name: "iteration-frequency", a: "1s", b: "2s"}, {name: "peak", a: "30s", b: "10s"},
-		{name: "weights", a: `""`, b: `"1,3"`}, {name: "standard-deviation", a: "10s", b: "20s"}, {name: "distribution", a: "none", b: "regular"}, {name: "jitter", a: "20", b: "50"}},
+		{name: "weights", a: `""`, b: `"1,3"`}, {name: "standard-deviation", a: "10s", b: "20s"}, {name: "distribution", a: "none", b: "regular"}, {name: "jitter", a: "20", b: "50", z: "0"}},
 	"users": {{name: "concurrency", a: "3", b: "4"}},
 }
 
@@ -213,10 +214,16 @@ func defaultsSuite(withGaussian bool) hlib.Suite {
 				continue
 			}
 			fs := append([]fld{}, fields[mode]...)
-			fs = append(fs, fld{name: "duration", a: "1s", b: "3s"}, fld{name: "parameters", a: "{K: stage}", b: "{K: default}"}, fld{name: "mode", a: mode, b: mode})
+			fs = append(fs, fld{name: "duration", a: "1s", b: "3s"}, fld{name: "parameters", a: "{K: stage}", b: "{K: default}", z: `{K: ""}`}, fld{name: "mode", a: mode, b: mode})
 			total := 1
-			for range fs {
-				total *= 3
+			radix := func(f fld) int {
+				if f.z != "" {
+					return 4
+				}
+				return 3
+			}
+			for _, f := range fs {
+				total *= radix(f)
 			}
 			for code := 0; code < total; code++ {
 				if !r.Mine() {
@@ -230,7 +237,12 @@ func defaultsSuite(withGaussian bool) hlib.Suite {
 				c := code
 				var src []string
 				for _, f := range fs {
-					switch c % 3 {
+					switch c % radix(f) {
+					case 3: // the stage states the zero value explicitly, default has another: stated is not omitted
+						stage = append(stage, fmt.Sprintf("  %s: %s", f.name, f.z))
+						def = append(def, fmt.Sprintf("  %s: %s", f.name, f.b))
+						eff[f.name] = f.z
+						src = append(src, "stage-states-zero")
 					case 0: // stage only
 						stage = append(stage, fmt.Sprintf("  %s: %s", f.name, f.a))
 						eff[f.name] = f.a
@@ -245,7 +257,7 @@ func defaultsSuite(withGaussian bool) hlib.Suite {
 						eff[f.name] = f.a
 						src = append(src, "both")
 					}
-					c /= 3
+					c /= radix(f)
 				}
 				doc := "scenario: sc\n" + limitsBlock() + "default:\n" + strings.Join(def, "\n") + "\nstages:\n- " + strings.TrimPrefix(strings.Join(stage, "\n"), "  ") + "\n"
 				if len(stage) == 0 {
@@ -267,7 +279,7 @@ func defaultsSuite(withGaussian bool) hlib.Suite {
 				if got.StageDuration != wantDur {
 					r.Fail("C15/defaults", "duration", fmt.Sprintf("duration %s, effective %s", got.StageDuration, wantDur), input)
 				}
-				wantK := strings.TrimSuffix(strings.TrimPrefix(eff["parameters"], "{K: "), "}")
+				wantK := unq(strings.TrimSuffix(strings.TrimPrefix(eff["parameters"], "{K: "), "}"))
 				if got.Params["K"] != wantK {
 					r.Fail("C15/defaults", "parameters", fmt.Sprintf("parameter K=%q, effective %q", got.Params["K"], wantK), input)
 				}
@@ -295,7 +307,7 @@ func defaultsSuite(withGaussian bool) hlib.Suite {
 				r.Distinct(input)
 			}
 		}
-		r.Sample(map[string]any{"per_field": "stage only | default only | both (stage wins)", "observed": "tick interval and 25 rate values vs. a trigger built directly from the effective values (jitter visible through a scripted random source)"})
+		r.Sample(map[string]any{"per_field": "stage only | default only | both (stage wins) | stage states the zero value, default another (jitter 0, empty parameter value)", "observed": "tick interval and 25 rate values vs. a trigger built directly from the effective values (jitter visible through a scripted random source)"})
 	}}
 }
 
